@@ -392,6 +392,38 @@ pub fn run(ctx: &Ctx) -> Result<(), String> {
             }
         });
     }
+    // connection bursts: k connections pending when the worker handles the event (k around any
+    // plausible per-event bound), alone and mixed with time requests
+    {
+        let ks: Vec<usize> = ctx.tier.pick(vec![2, 3, 8, 15, 16, 17, 31, 32, 33, 64, 100], (2..=130).collect());
+        let mut hs: Vec<Vec<HEv>> = vec![];
+        for &k in &ks {
+            let mut h = vec![HEv::Connect; k];
+            h.push(HEv::Step);
+            hs.push(h.clone());
+            let mut h2 = vec![HEv::Send];
+            h2.extend(vec![HEv::Connect; k]);
+            h2.push(HEv::Send);
+            hs.push(h2);
+            // two bursts separated by a step
+            let mut h3 = vec![HEv::Connect; k];
+            h3.push(HEv::Step);
+            h3.extend(vec![HEv::Connect; k]);
+            hs.push(h3);
+        }
+        par_for(hs.len(), 1, |k, _| {
+            hist_n.fetch_add(1, Relaxed);
+            transitions.fetch_add(hs[k].len() as u64 + 3, Relaxed);
+            match health_history(&hs[k]) {
+                Err(e) => *failed.lock().unwrap() = Some(e),
+                Ok(None) => {}
+                Ok(Some((clause, msg))) => {
+                    let nconn = hs[k].iter().filter(|e| **e == HEv::Connect).count();
+                    ctx.violation(&clause, "handle_health_check", if nconn > 16 { "connections>16" } else { "connections>=2" }, json!({"kind":"health-history","events":hs[k].iter().map(|e| format!("{:?}", e)).collect::<Vec<_>>(),"message":msg}));
+                }
+            }
+        });
+    }
     if let Some(e) = failed.lock().unwrap().take() {
         return Err(e);
     }
@@ -410,7 +442,7 @@ pub fn run(ctx: &Ctx) -> Result<(), String> {
     ctx.cov("exhaustive", json!(sched.caps_hit.is_empty()));
     ctx.cov("caps_hit", json!(sched.caps_hit));
     ctx.cov("bound", json!({"configuration_space": ctx.tier.pick("all-pairs covering array of the 4608-point product", "full 4608-point product"), "health_history_len": ctx.tier.pick(5, 6)}));
-    ctx.cov("rule", json!("(1) real server binary started on every point of the documented option space (num_workers 1..=16 x health_check_port absent/present x batch_size {1,2,63,64} x fault_percentage {0,1,50} x status_interval {1,10,600} x client_stats off/on+directory x file/ENV; quick: greedy all-pairs covering array; thorough: full product) and on the repository's example.cfg: process alive, thread names worker-0..N-1 (+stats-reporting iff client_stats), N distinct delegated keys answer authentic replies on the UDP port, the health port answers the fixed HTTP 200 bytes, no panic text; (2) start-up schedules under the controlled scheduler (see startup_schedules); (3) all sequences of length <= L over {connect_tcp, send(valid request), step} on a real in-process Server with the health port on, driven to quiescence: every accepted TCP connection received exactly the fixed response and was closed, every UDP request answered."));
+    ctx.cov("rule", json!("(1) real server binary started on every point of the documented option space (num_workers 1..=16 x health_check_port absent/present x batch_size {1,2,63,64} x fault_percentage {0,1,50} x status_interval {1,10,600} x client_stats off/on+directory x file/ENV; quick: greedy all-pairs covering array; thorough: full product) and on the repository's example.cfg: process alive, thread names worker-0..N-1 (+stats-reporting iff client_stats), N distinct delegated keys answer authentic replies on the UDP port, the health port answers the fixed HTTP 200 bytes, no panic text; (2) start-up schedules under the controlled scheduler (see startup_schedules); (3) all sequences of length <= L over {connect_tcp, send(valid request), step} on a real in-process Server with the health port on, driven to quiescence: every accepted TCP connection received exactly the fixed response and was closed, every UDP request answered; plus bursts of k connections (quick k in {2,..,100}, thorough every k 2..=130) pending before one step, alone, mixed with requests, and twice."));
     ctx.sample(json!({"kind":"start","point":{"num_workers":16,"health_check_port":true,"batch_size":63,"fault_percentage":1,"status_interval":10,"client_stats":true,"source":"ENV"}}));
     ctx.sample(json!({"kind":"health-history","events":["Connect","Connect","Send","Step"]}));
     ctx.assume("SO_REUSEPORT spreads 48*N+32 client sockets over all N workers (probability of missing a live worker < 1e-15)");
